@@ -45,4 +45,19 @@ TotAgreesWithCmp(I, J, cmp(_, _), tot(_, _)) ==
 TotGrouped(I, J, tot(_, _), ty(_)) ==
   \A i \in I, j \in J : (ty(j) # ty(i) /\ tot(i, j) \in {-1, 0}) =>
     \A k \in J : ty(k) = ty(i) => tot(j, k) = 1
+
+(* Rank formulation (O(n^2) instead of O(n^3)).  For a relation tot on a finite set J let
+   below(i) = number of j with tot(j, i) = -1.  THEOREM: tot is a total preorder (total,
+   antisymmetric in the sense above, transitive with strictness) iff
+   tot(i, j) = Sign(below(i) - below(j)) for all i, j.   (<=: a relation induced by an integer-valued
+   function is a total preorder.  =>: in a total preorder i < j implies below(i) < below(j) because
+   everything below i is below j and i itself is below j but not below i; i ~ j implies equal counts.)
+   rk(i) must be below(i); RankIsCount checks that, TotRanked the equation. *)
+SignOf(n) == IF n < 0 THEN -1 ELSE IF n > 0 THEN 1 ELSE 0
+RankIsCount(I, J, tot(_, _), rk(_), card(_)) == \A i \in I : rk(i) = card({j \in J : tot(j, i) = -1})
+TotRanked(I, J, tot(_, _), rk(_)) == \A i \in I, j \in J : tot(i, j) = SignOf(rk(i) - rk(j))
+\* grouped by type, given lo(t)/hi(t) = least/greatest rank among the values of type t (tys = all types)
+TotGroupedByRank(I, tys, rk(_), ty(_), lo(_), hi(_)) ==
+  \A i \in I : /\ lo(ty(i)) <= rk(i) /\ rk(i) <= hi(ty(i))
+                /\ \A t \in tys : t # ty(i) => (rk(i) < lo(t) \/ rk(i) > hi(t))
 =============================================================================
